@@ -65,6 +65,22 @@ def Frame.WF (f : Frame) : Prop :=
 
 instance (f : Frame) : Decidable f.WF := by unfold Frame.WF; exact inferInstance
 
+/-! ### TargetReady payload (`tunnelID|targetNodeID`) -/
+
+def bar : Byte := 0x7c   -- '|'
+
+/-- `EncodeTargetReadyMessage` -/
+def encodeTargetReady (tid node : Bytes) : Bytes := tid ++ bar :: node
+
+/-- `DecodeTargetReadyMessage`: split at the LAST '|' (tunnel ids are chosen by clients and may contain
+'|', node ids never do); `none` = "invalid target ready message format". -/
+def decodeTargetReady : Bytes → Option (Bytes × Bytes)
+  | [] => none
+  | b :: bs =>
+    match decodeTargetReady bs with
+    | some (t, n) => some (b :: t, n)
+    | none => if b == bar then some ([], bs) else none
+
 /-! ### ReadFrameFromReader -/
 
 /-- How `ReadFrameFromReader` fails. -/
